@@ -116,10 +116,11 @@ type Job struct {
 	// C++: per-stream buffer sizes for CopyTo
 	Buf []int `json:"buf,omitempty"`
 	// cut positions etc. for other ops
-	Cuts   []int  `json:"cuts,omitempty"`
-	Ops    []Op   `json:"ops,omitempty"`
-	Side   string `json:"side,omitempty"`
-	Counts []int  `json:"counts,omitempty"`
+	Cuts   []int    `json:"cuts,omitempty"`
+	Ops    []Op     `json:"ops,omitempty"`
+	Side   string   `json:"side,omitempty"`
+	Names  []string `json:"names,omitempty"`
+	Counts []int    `json:"counts,omitempty"`
 }
 
 type Op struct {
